@@ -291,6 +291,16 @@ def check_splice(facts):
                     probs.append("unmatched text is not pushed")
                 if not exp and len(pushes) < 3:
                     probs.append("nothing is inserted between the gap and the cursor update")
+            # the only value returned is `result`, after the tail was pushed
+            res_l = names.get("result")
+            rets = [(bi, i, s) for bi, i, s in b.iter_stmts() if s["k"] == "assign" and s["pl"]["l"] == 0 and not s["pl"]["p"]]
+            rets_c = [bb for bb, t in b.iter_calls() if t["dest"]["l"] == 0 and not t["dest"]["p"]]
+            if rets_c or len(rets) != 1 or not (rets[0][2]["rv"]["k"] == "use" and rets[0][2]["rv"]["op"]["k"] == "move"
+                                                and rets[0][2]["rv"]["op"]["pl"]["l"] == res_l):
+                probs.append("the function has a return path that does not return the spliced `result` (%d direct, %d call returns)" % (
+                    len(rets), len(rets_c)))
+            elif post and len(post) == 1 and post[0][0] not in b.dom()[rets[0][0]]:
+                probs.append("`result` is returned on a path that skips the tail text[last_end..]")
         else:
             if m_l is None:
                 r.fail(key, "local `m` not found (unrecognised shape)", facts.loc(fn))
